@@ -15,26 +15,36 @@
 (***************************************************************************)
 EXTENDS FilterChainOps, TLC, Json
 
-CONSTANTS Layers,      \* what a writer may apply at one position: set of <<filter, predictor>>,
-                       \*   filter in {"AHx","A85","LZW","Fl","RL"}, predictor 0 (no entry), 1, 2, 10..15
+CONSTANTS Layers,      \* what a writer may apply at one position: set of <<filter, predictor, earlychange>>,
+                       \*   filter in {"AHx","A85","LZW","Fl","RL","CCF"}, predictor 0 (no entry), 1, 2, 10..15,
+                       \*   earlychange -1 (no entry; only LZW has one), 0, 1.  The same kind may stand at several
+                       \*   positions of a chain with different parameters.
           MaxChain     \* chains of 0..MaxChain layers
 
 FullName(f) == CASE f = "AHx" -> "ASCIIHexDecode" [] f = "A85" -> "ASCII85Decode" [] f = "LZW" -> "LZWDecode"
-                 [] f = "Fl" -> "FlateDecode" [] f = "RL" -> "RunLengthDecode"
+                 [] f = "Fl" -> "FlateDecode" [] f = "RL" -> "RunLengthDecode" [] f = "CCF" -> "CCITTFaxDecode"
 AbbrName(f) == CASE f = "Fl" -> "Fl" [] f = "LZW" -> "LZW" [] f = "A85" -> "A85" [] f = "AHx" -> "AHx" [] f = "RL" -> "RL"
+                 [] f = "CCF" -> "CCF"
 
 \* ======================================================================== writer (reference)
 \* the encoded data, outermost layer first: what the reader has to undo, in this order
 PredLayer(p) == IF p = 2 THEN <<"p:tiff">> ELSE IF p >= 10 THEN <<"p:png">> ELSE <<>>
+\* an LZW layer is a different encoding for /EarlyChange 0 and 1 (absent = 1)
+CodecTag(f, ec) == IF f = "LZW" THEN (IF ec = 0 THEN "c:LZW:0" ELSE "c:LZW:1") ELSE "c:" \o f
 RECURSIVE Wrap(_)
-Wrap(ls) == IF ls = <<>> THEN <<>> ELSE <<"c:" \o ls[1][1]>> \o PredLayer(ls[1][2]) \o Wrap(Tail(ls))
+Wrap(ls) == IF ls = <<>> THEN <<>> ELSE <<CodecTag(ls[1][1], ls[1][3])>> \o PredLayer(ls[1][2]) \o Wrap(Tail(ls))
 
 \* spelling: "full" / "abbr" / "mix" (alternating, first full)
 Spell(f, k, sp) == IF sp = "full" \/ (sp = "mix" /\ k % 2 = 1) THEN FullName(f) ELSE AbbrName(f)
 
+\* the parameter dictionary of one stage: /Predictor, /EarlyChange, /K as the layer needs them
+ParmKeys(l) == (IF l[2] # 0 THEN {"Predictor"} ELSE {}) \cup (IF l[3] # -1 THEN {"EarlyChange"} ELSE {})
+               \cup (IF l[1] = "CCF" THEN {"K"} ELSE {})
+ParmVal(l, k) == CASE k = "Predictor" -> l[2] [] k = "EarlyChange" -> l[3] [] k = "K" -> -1
+NeedsParms(l) == ParmKeys(l) # {}
 ParmOf(l, pref, empty) ==
-  IF l[2] = 0 THEN empty
-  ELSE LET d == Dict([k \in {"Predictor"} |-> IF pref = "values" THEN Ref(In(l[2])) ELSE In(l[2])]) IN
+  IF ~NeedsParms(l) THEN empty
+  ELSE LET d == Dict([k \in ParmKeys(l) |-> IF pref = "values" THEN Ref(In(ParmVal(l, k))) ELSE In(ParmVal(l, k))]) IN
        IF pref = "items" THEN Ref(d) ELSE d
 
 \* the stream dictionary a writer produces for the layers ls under the given shape choices
@@ -54,7 +64,7 @@ Attrs(ls, sh) ==
       ELSE IF sh.pform = "absent" THEN [k \in {fkey} |-> fval]
       ELSE [k \in {fkey, pkey} |-> IF k = fkey THEN fval ELSE pval]
 
-HasPred(ls) == \E k \in 1..Len(ls) : ls[k][2] # 0
+HasPred(ls) == \E k \in 1..Len(ls) : NeedsParms(ls[k])
 Shapes(ls) ==
   LET n == Len(ls) IN
   { sh \in [abbrkeys : BOOLEAN, spell : {"full", "abbr", "mix"}, fform : {"name", "arr"},
@@ -100,16 +110,22 @@ Peel(tag) == IF data # <<>> /\ data[1] = tag THEN Tail(data) ELSE <<"garbage">>
 
 \* one action per codec branch of the loop
 Codec(f) == /\ pc = "loop" /\ k <= Len(pairs) /\ CurF.t = "name" /\ Canon(CurF.v) = f
-            /\ data' = Peel("c:" \o f) /\ calls' = Append(calls, f) /\ pc' = "pred"
+            /\ data' = Peel(CodecTag(f, ECOf(CurP))) /\ calls' = Append(calls, CallName(f, CurP)) /\ pc' = "pred"
             /\ Keep /\ UNCHANGED <<filters, params, pairs, k, err>>
 AFlate == Codec("Fl")
+\* early_change = 1; if params and "EarlyChange" in params: ...; lzwdecode(data, early_change)  - per stage
 ALZW   == Codec("LZW")
+\* ccittfaxdecode(data, params): /K -1 or PDFValueError
+ACCF   == /\ pc = "loop" /\ k <= Len(pairs) /\ KOf(CurP) = -1 /\ Codec("CCF")
+ACCFBadK == /\ pc = "loop" /\ k <= Len(pairs) /\ CurF.t = "name" /\ Canon(CurF.v) = "CCF" /\ KOf(CurP) # -1
+            /\ err' = "PDFValueError" /\ calls' = Append(calls, "CCF?") /\ pc' = "done"
+            /\ Keep /\ UNCHANGED <<data, filters, params, pairs, k>>
 AA85   == Codec("A85")
 AAHx   == Codec("AHx")
 ARL    == Codec("RL")
-\* DCT / JBIG2 / JPX data is handed on undecoded, CCITTFax has its own decoder (C19): no layer of this model
-AOther == /\ pc = "loop" /\ k <= Len(pairs) /\ CurF.t = "name" /\ Canon(CurF.v) \in {"pass", "CCF"}
-          /\ calls' = calls \o CodecCall(Canon(CurF.v)) /\ pc' = "pred"
+\* DCT / JBIG2 / JPX data is handed on undecoded: no layer of this model
+AOther == /\ pc = "loop" /\ k <= Len(pairs) /\ CurF.t = "name" /\ Canon(CurF.v) = "pass"
+          /\ pc' = "pred" /\ UNCHANGED calls
           /\ Keep /\ UNCHANGED <<data, filters, params, pairs, k, err>>
 AUnsupported == /\ pc = "loop" /\ k <= Len(pairs) /\ (CurF.t # "name" \/ Canon(CurF.v) = "?")
                 /\ err' = "PDFNotImplementedError" /\ pc' = "done"
@@ -132,7 +148,7 @@ ABadPredictor == /\ pc = "pred" /\ PredVal \in 3..9
 ADone == /\ pc = "loop" /\ k > Len(pairs) /\ pc' = "done"
          /\ Keep /\ UNCHANGED <<data, filters, params, pairs, k, err, calls>>
 
-Next == AGet \/ ANormalise \/ AFlate \/ ALZW \/ AA85 \/ AAHx \/ ARL \/ AOther \/ AUnsupported
+Next == AGet \/ ANormalise \/ AFlate \/ ALZW \/ AA85 \/ AAHx \/ ARL \/ ACCF \/ ACCFBadK \/ AOther \/ AUnsupported
         \/ ANoPredictor \/ ATiff \/ APng \/ ABadPredictor \/ ADone
 Spec == Init /\ [][Next]_vars
 
@@ -142,8 +158,10 @@ ChainInverts == pc = "done" => (data = <<>> /\ err = "none")
 \* what remains is always what the writer applied below the layers already undone
 PeelsInOrder == \E j \in 0..Len(Wrap(layers)) : data = SubSeq(Wrap(layers), j + 1, Len(Wrap(layers)))
 \* one codec call per layer, in the writer's order
+\* ... each LZW stage with its own /EarlyChange (an earlier stage's value must not reach a later one)
 CallsMatch == pc = "done" =>
-   SelectSeq(calls, LAMBDA c : c \notin {"tiff", "png"}) = [i \in 1..Len(layers) |-> layers[i][1]]
+   SelectSeq(calls, LAMBDA c : c \notin {"tiff", "png"}) =
+      [i \in 1..Len(layers) |-> IF layers[i][1] = "LZW" /\ layers[i][3] = 0 THEN "LZW0" ELSE layers[i][1]]
 
 \* the machine makes the calls the pure reading of the dictionary predicts (binds FilterChainTrace)
 CallsAsPredicted == (pc = "done" /\ err = "none") => calls = ExpectedCalls(attrs)
